@@ -10,9 +10,10 @@ Definition visited (s : st) (id t : nat) : st := mkSt ((id, t) :: s_args s) (s_c
 
 (* when the container has no such field, sortArgs has nothing to complain about *)
 Lemma sort_args_no_field S t name args :
+  Nat.eqb name TYPENAME = false ->
   get_field_def S t name = None -> snd (sort_args S t name args) = [].
 Proof.
-  unfold get_field_def, sort_args. intros H. destruct args; [reflexivity|].
+  unfold get_field_def, sort_args, meta_arg_errs. intros Hn H. destruct args; [reflexivity|]. rewrite Hn.
   destruct (lookup t S) as [[k|fs ifaces|fs|ms|fs]|]; try reflexivity; rewrite H; reflexivity.
 Qed.
 
@@ -28,11 +29,30 @@ Theorem C10_unknown_field :
 Proof.
   intros S G frags any md vars fuel obj id alias name args fsels t result depth s Hn Hg.
   rewrite resolve_field_eq. cbv zeta. unfold visited.
-  pose proof (sort_args_no_field S t name args Hg) as Ht.
+  pose proof (sort_args_no_field S t name args Hn Hg) as Ht.
   destruct (sort_args S t name args) as [a e]. simpl in Ht. subst e.
   rewrite Hn, Hg. reflexivity.
 Qed.
 Print Assumptions C10_unknown_field.
+
+(* __typename declares no arguments: one written on it is reported like any other undeclared
+   argument, in every container type, and the selection gets no entry. *)
+Theorem C10_argument_on_typename :
+  forall S G frags any md vars fuel obj id alias a args fsels t result depth s,
+    get_field_def S t TYPENAME = None ->
+    exists e ea, resolve_field S G frags any md vars (Datatypes.S fuel) obj id alias TYPENAME (a :: args) fsels t result depth s =
+                 Done (result, errs_in (PKey (key_of alias TYPENAME)) (e :: ea), visited s id t) /\
+                 e_kind e = EBadArg.
+Proof.
+  intros S G frags any md vars fuel obj id alias a args fsels t result depth s Hg.
+  assert (Hne : exists e ea, snd (sort_args S t TYPENAME (a :: args)) = e :: ea /\ e_kind e = EBadArg).
+  { unfold sort_args, get_field_def, meta_arg_errs in *. cbn [Nat.eqb TYPENAME].
+    destruct (lookup t S) as [[k|fs ifaces|fs|ms|fs]|]; try (rewrite Hg); cbn [snd map]; eauto. }
+  destruct Hne as [e [ea [He Hk]]]. exists e, ea. split; auto.
+  rewrite resolve_field_eq. cbv zeta. unfold visited.
+  destruct (sort_args S t TYPENAME (a :: args)) as [sa se]. simpl in He. subst se. reflexivity.
+Qed.
+Print Assumptions C10_argument_on_typename.
 
 (* An undeclared argument under an object or interface container t: on every visit of that Field - the first or a
    later one, after visits under the same or under OTHER container types, in the same or a later
